@@ -49,7 +49,7 @@ CHILD_TIMEOUT = 900
 
 
 def cases(tier, rng):
-    n_cases, per = (4, 1) if tier == "quick" else (42, 3)
+    n_cases, per = (4, 1) if tier == "quick" else (28, 3)
     return [{"kind": "scenes", "n": per, "scene_seed": int(rng.integers(1 << 30)), "force": i % 8} for i in range(n_cases)]
 
 
